@@ -157,12 +157,51 @@ def sync_order_check(R, oid, key):
     return {"confirmed": False, "detail": "strace: the staged copy is fsync'ed before the rename"}
 
 
+def rename_source_check(R, oid, key):
+    """real system calls of one both-changed conflict step and one propagation: every rename must move a `.copia-tmp`
+    staging file; a live path is never renamed away or unlinked"""
+    import re
+    cases = [{"fn": "bisync_apply", "a": {"f.txt": hx(b"aaaa")}, "b": {"f.txt": hx(b"bbbb")}, "rel": "f.txt", "action": "Conflict(BothChanged)"},
+             {"fn": "bisync_apply", "a": {"f.txt": hx(b"zzzz")}, "b": {"f.txt": hx(b"bbbb")}, "rel": "f.txt", "action": "Conflict(BothChanged)"},
+             {"fn": "bisync_apply", "a": {"f.txt": hx(b"new")}, "b": {"f.txt": hx(b"old")}, "rel": "f.txt", "action": "PropagateAtoB"},
+             {"fn": "bisync_apply", "a": {"f.txt": hx(b"new")}, "b": {}, "rel": "f.txt", "action": "Conflict(DeleteVsModify)"}]
+    for prof in ("dev", "release"):
+        for case in cases:
+            ev, res = hubnative.strace_case(case, prof)
+            for name, args, rc in ev:
+                if name == "write" and args.startswith("1<"):
+                    break                     # the result line has been printed: what follows is the oracle's own clean-up
+                if "/bworld/" not in args:
+                    continue
+                breach = None
+                if name in ("rename", "renameat", "renameat2"):
+                    ps = re.findall(r'"([^"]*)"', args)
+                    if len(ps) >= 2 and not ps[0].endswith(".copia-tmp"):
+                        breach = "rename(%s -> %s): a live path is renamed away instead of being replaced by a staged copy" % (ps[0].split("/bworld/")[-1], ps[1].split("/bworld/")[-1])
+                elif name in ("unlink", "unlinkat"):
+                    ps = re.findall(r'"([^"]*)"', args)
+                    if ps and "/bworld/" in ps[-1] and not ps[-1].endswith(".copia-tmp") and rc == "0":
+                        breach = "unlink(%s) during a %s step" % (ps[-1].split("/bworld/")[-1], case["action"])
+                if breach:
+                    c = dict(case)
+                    c["observed"] = {prof: {"syscall": [name, args[:200], rc]}}
+                    c["deviation"] = breach
+                    c["strace"] = True
+                    return {"confirmed": True, "replay_path": R.save_replay(oid, c), "key": key,
+                            "detail": "real system calls of a bisync %s step (%s): %s" % (case["action"], prof, breach)}
+    return {"confirmed": False, "detail": "strace: every rename of an apply step moves a `.copia-tmp` staging file; no live path is unlinked"}
+
+
 def make_witness(R, pid, what):
     def w(name, model, neg):
         oid = "%s/%s" % (pid, what)
         key = "%s/%s/%s" % (pid, what, name[:60])
         if "flushed-to-stable-storage" in name:
             return sync_order_check(R, oid, key)
+        if what == "apply":
+            r = rename_source_check(R, oid, key)
+            if r["confirmed"]:
+                return r
         extra = []
         hm = getattr(make_witness, "history_of_model", None)
         if what == "run" and hm is not None:
